@@ -18,6 +18,8 @@ def run(ctx):
     RT.enumerate_indices(ctx, "R06.d")
     RR.per_record_purity(ctx, "R06.e")
     RC20.buffer_rules(ctx, "R20.c", None, "R20.f")
+    RC20.forwarders(ctx, "R06.f", only=("limit-assign",))          # set_limit stores its `limit` parameter unchanged
+    RR.rating_confinement(ctx, "R06.g", parts=("width",))    # the compared rating is the full-width rating (the pre-selection compares it as usize)
     return info("R06.a: the bounded selection truncates to its limit field only directly after a sort, finishes with sort -> "
                 "truncate(limit) -> reverse before the first pop under the done flag, forwards (x, y) to the user comparator in "
                 "order; the limit is self.limit at every selection site; the search pipeline is ixs -> hit -> score -> "
